@@ -209,13 +209,63 @@ func pipeBody(env *simrt.Env, prop string) {
 		groupOn = true
 	}
 	_ = groupOn
+	// C02 with group triggering: channel 0 triggers on its own (auto only) and every other channel
+	// receives its triggers as secondaries. Secondaries are no triggers of the receiving channel: its own
+	// edge/level/auto triggering must be as sound and complete as without them.
+	c02Group := false
+	if prop == "C02" && nchan >= 2 && history < 2 && simrt.Draw(3) == 0 {
+		c02Group = true
+		configure(0, TriggerState{AutoTrigger: true, AutoDelay: time.Duration(float64(nsamp+simrt.Draw(3*nsamp)) / rate * float64(time.Second)), EdgeLevel: 100, EdgeRising: true, LevelLevel: 4000})
+		obs[0].epochs = obs[0].epochs[len(obs[0].epochs)-1:]
+		obs[0].epochs[0].from, obs[0].epochs[0].recFrom = 0, 0
+		conns := map[int][]int{0: nil}
+		for c := 1; c < nchan; c++ {
+			conns[0] = append(conns[0], c)
+		}
+		var ok bool
+		if err := w.sc.AddGroupTriggerCoupling(GroupTriggerState{Connections: conns}, &ok); err != nil {
+			simrt.Fail("harness.group", "harness:group", "AddGroupTriggerCoupling %v: %v", conns, err)
+		}
+		env.Op("group triggering: channel 0 (auto only) -> all other channels")
+		simrt.Hit("group-triggered-receivers-with-own-triggers")
+	}
 
 	// when (in blocks) mid-run requests happen
 	reconfAt := -1
 	if history >= 2 && len(blocks) > 4 {
 		reconfAt = 2 + simrt.Draw(len(blocks)-3)
 	}
+	// a request the server refuses (invalid edge-multi settings; invalid lengths) is no reconfiguration:
+	// nothing about the triggering may change
+	refuseAt := -1
+	if len(blocks) > 3 && simrt.Draw(3) == 0 {
+		refuseAt = 1 + simrt.Draw(len(blocks)-2)
+	}
 	for bi, n := range blocks {
+		if bi == refuseAt {
+			w.sync()
+			w.drain()
+			var ok bool
+			var err error
+			what := ""
+			if simrt.Draw(2) == 0 {
+				bad := TriggerState{EdgeMulti: true, EdgeRising: true, AutoDelay: 250 * time.Millisecond}
+				bad.EdgeMultiLevel = 100
+				bad.EdgeMultiVerifyNMonotone = w.nsamp + 5 // more than the post-trigger length: invalid
+				c := simrt.Draw(nchan)
+				err = w.sc.ConfigureTriggers(&FullTriggerState{ChannelIndices: []int{c}, TriggerState: bad}, &ok)
+				what = fmt.Sprintf("ConfigureTriggers chan=%d with invalid edge-multi settings", c)
+			} else {
+				err = w.sc.ConfigurePulseLengths(SizeObject{Nsamp: w.npre, Npre: w.npre + 2}, &ok)
+				what = "ConfigurePulseLengths with pre-trigger longer than the record"
+			}
+			env.Op("%s -> %v", what, err)
+			if err == nil {
+				simrt.Fail("harness.refused", "harness:invalid-request-accepted", "%s was accepted", what)
+			}
+			w.drain()
+			simrt.Hit("refused-request-mid-run")
+		}
 		if bi == reconfAt {
 			w.sync()
 			w.drain()
@@ -263,11 +313,44 @@ func pipeBody(env *simrt.Env, prop string) {
 	// ---- oracles
 	per := w.perChannel()
 	nrec := 0
+	src := map[FrameIndex]int{} // group mode: frames of channel 0's (primary) records
+	if c02Group {
+		for _, ro := range per[0].recs {
+			src[ro.rec.trigFrame]++
+		}
+	}
 	for c := 0; c < nchan; c++ {
 		obs[c].recs = per[c].recs
 		nrec += len(obs[c].recs)
 		checkExcerpts(w, c, &obs[c])
 		if prop == "C02" {
+			if c02Group && c > 0 {
+				// one record per source trigger is a secondary; what remains are the channel's own triggers
+				left := map[FrameIndex]int{}
+				for f, n := range src {
+					left[f] = n
+				}
+				var own []recObs
+				for _, ro := range obs[c].recs {
+					if left[ro.rec.trigFrame] > 0 {
+						left[ro.rec.trigFrame]--
+						continue
+					}
+					own = append(own, ro)
+				}
+				missing := 0
+				for _, n := range left {
+					missing += n
+				}
+				if missing > 0 {
+					// a secondary can only be cut when the receiver still holds the samples around it; the
+					// very first and last triggers of a run may lack them. More than that is C09's business.
+					simrt.Hit("secondary-not-cut")
+				}
+				// (which of two records at one frame was the secondary is unknowable and irrelevant: order by frame)
+				sort.SliceStable(own, func(i, j int) bool { return own[i].rec.trigFrame < own[j].rec.trigFrame })
+				obs[c].recs = own
+			}
 			checkTriggers(w, c, &obs[c], total)
 		}
 	}
